@@ -13,6 +13,7 @@ import (
 	"github.com/NethermindEth/juno/core"
 	"github.com/NethermindEth/juno/core/felt"
 	"github.com/bits-and-blooms/bloom/v3"
+	"verifharness/hx"
 )
 
 type probe struct {
@@ -248,18 +249,19 @@ func shortErr(err error) string {
 
 var hexRe = regexp.MustCompile(`0x[0-9a-fA-F]+|block \d+`)
 
-// crossingProbe: a chain whose class trie is empty crosses from a pre-0.14.0 version to 0.14.0. The state
+// crossingRegression: a chain whose class trie is EMPTY crosses from a pre-0.14.0 version to 0.14.0. The state
 // commitment formula changes (contract root alone -> Poseidon(STATE_V0, contract root, class root)), so the
-// commitment of the SAME state under the new block's version is not the root recorded in the previous header.
-// Juno's own Finalise (sequencer) writes OldRoot = new-rule commitment. Observation only (real networks had
-// Sierra classes before 0.14.0): which OldRoot, if any, each backend accepts.
-func (r *runner) crossingProbe() {
-	obs := map[string]string{}
+// commitment of the SAME state under the new block's version is not the root recorded in the previous header;
+// juno's Finalise writes OldRoot = new-rule commitment. Positive regression (after /repo 14a038f both backends
+// open the head's state and compare OldRoot with its commitment under the block's version): the chain must
+// extend on both backends, and the same block with OldRoot = previous header's root must be rejected.
+func (r *runner) crossingRegression() {
 	for _, newState := range []bool{false, true} {
+		be := backendName(newState)
 		ctx := blockCtx{Number: 0, Timestamp: 1_700_000_000, NextAddr: 100, NextClass: 500, Version: "0.13.6"}
 		var seeds []uint64
 		var ctxs []blockCtx
-		for i, s := 0, uint64(1); i < 2; s++ {
+		for i, s := 0, uint64(1); i < 3; s++ {
 			b, next := genBlock(s, ctx)
 			if len(b.Update.StateDiff.DeclaredV1Classes) > 0 {
 				continue // keep the class trie empty
@@ -276,40 +278,44 @@ func (r *runner) crossingProbe() {
 		for i := range seeds {
 			f, why := r.complete(seq.node, seeds[i], ctxs[i], parent)
 			if why != "" {
-				obs["error"] = why
+				r.c.Violation("model-vs-juno:"+firstField(why), "version-crossing regression: "+why, replayCase{Kind: "crossing"}, true)
 				return
 			}
-			for _, variant := range []string{"OldRoot=commitment-under-new-version (what Finalise writes)", "OldRoot=root-in-previous-header"} {
-				if i == 0 && variant != "OldRoot=commitment-under-new-version (what Finalise writes)" {
-					continue
+			rc := replayCase{Kind: "crossing", NewState: newState, Pos: i}
+			if i == 1 {
+				if f.OldRoot.Equal(headRoot) {
+					hx.Fatalf("version-crossing regression is vacuous: old root equals the previous header's root")
 				}
+				// the same block claiming the previous header's root as old root: not the commitment under 0.14.0
 				b, _ := genBlock(seeds[i], ctxs[i])
 				f.apply(b)
-				if variant == "OldRoot=root-in-previous-header" {
-					b.Update.OldRoot = headRoot
-				}
+				b.Update.OldRoot = headRoot
+				pre := rawDigest(fol.mem)
 				err, pan := store(fol.node, b)
-				if i == 1 {
-					res := "accepted"
-					if err != nil {
-						res = "rejected: " + shortErr(err)
-					}
-					if pan != "" {
-						res = "panic " + pan
-					}
-					obs[backendName(newState)+": "+variant] = fmt.Sprintf("%s (finalise old root = previous header root: %v)", res, f.OldRoot.Equal(headRoot))
-					if err == nil {
-						break
-					}
-				} else if err != nil {
-					obs["error"] = "block 0: " + err.Error()
+				r.c.Count("crossing/"+be+"/header-root-as-old-root", true)
+				if err == nil || pan != "" {
+					r.c.Violation("tamper-accepted:"+be+":version-crossing:old-root=previous-header-root",
+						fmt.Sprintf("block 1 (0.14.0) with OldRoot = root in block 0's header (0.13.6 rule) was stored or panicked: %s", pan), rc, false)
 					return
 				}
+				if rawDigest(fol.mem) != pre {
+					r.c.Violation("reject-not-pure:db:"+be+":version-crossing", "rejected but the database changed", rc, false)
+				}
+				r.c.Hist["crossing:header-root-as-old-root-rejected:"+be]++
 			}
+			b, _ := genBlock(seeds[i], ctxs[i])
+			f.apply(b)
+			err, pan := store(fol.node, b)
+			r.c.Count(fmt.Sprintf("crossing/%s/%d", be, i), true)
+			if err != nil || pan != "" {
+				r.c.Violation("valid-rejected:"+be+":version-crossing-empty-class-trie",
+					fmt.Sprintf("block %d (%s) of a chain crossing 0.13.6 -> 0.14.0 with an empty class trie rejected: %v %s", i, ctxs[i].Version, err, pan), rc, false)
+				return
+			}
+			r.c.Hist["crossing:accepted:"+be]++
 			parent, headRoot = f.Hash, f.Root
 		}
 	}
-	r.c.Extra["version_crossing_with_empty_class_trie"] = obs
 }
 
 // uncommittedProbes: for a post-0.7-format block, one tampering of every KIND of field that format does not
